@@ -91,10 +91,18 @@ StableArr(n, lo, hi, k, left) ==
   IN <<SInfer("a", ArrOf(n))>> \o ObsArr(n)
       \o <<SInfer("t", IF left THEN EBin("+", ESlice(A, Opt(lo), Opt(hi)), X) ELSE EBin("+", X, ESlice(A, Opt(lo), Opt(hi)))), Pr(<<TA>>)>> \o ObsArr(n)
       \o <<SAsg(TA, EBin("+", ESlice(TA, <<>>, <<ENum(I(1))>>), ESlice(A, Opt(lo), Opt(hi)))), SAsg(EIdx(TA, ENum(I(0))), ENum(I(55))), Pr(<<TA>>)>> \o ObsArr(n)
+\* a slice is a copy: a store into the SOURCE after the slice was taken does not show in the slice (and the other way
+\* round), for every pair of bounds and every position
+SliceThenStore(n, lo, hi, i) ==
+  LET B == EVar("b", TArr(T_num))
+  IN <<SInfer("a", ArrOf(n)), SInfer("b", ESlice(A, Opt(lo), Opt(hi))), SAsg(EIdx(A, ENum(I(i))), ENum(I(99))), Pr(<<A, B>>),
+       SIf(<<EBin(">", ECallB("len", <<B>>), ENum(I(0)))>>, <<<<SAsg(EIdx(B, EUn("-", ENum(I(1)))), ENum(I(77)))>>>>, <<>>), Pr(<<A, B>>),
+       SAsg(EIdx(A, ENum(I(0))), ENum(I(55))), Pr(<<A, B>> \o [j \in 1..n |-> EIdx(A, ENum(I(j - 1)))])>>
 InB(n) == {I(i) : i \in 0..n} \cup {NoB}
 StableProgs ==
   UNION {{StableStr(n, lo, hi, x, l) : lo \in InB(n), hi \in InB(n), x \in StrTails, l \in BOOLEAN} : n \in {MaxLen}}
   \cup UNION {{StableArr(n, lo, hi, k, l) : lo \in InB(n), hi \in InB(n), k \in 1..2, l \in BOOLEAN} : n \in {MaxLen}}
+  \cup UNION {{SliceThenStore(n, lo, hi, i) : lo \in InB(n), hi \in InB(n), i \in 0..(n - 1)} : n \in {MaxLen}}
 
 FamCases == {MkCase("FamIndex", "idx", Program(p, <<>>, <<>>)) : p \in Progs}
             \cup {MkCase("FamIndex", "stable", Program(p, <<>>, <<>>)) : p \in StableProgs}
